@@ -169,7 +169,45 @@ Section ThreeWay.
   Definition merge_by_patches (base left right : dict N) : dict N :=
     apply_patches (send_patches (diff base left) (diff base right)) left.
 
+  (* ---- range (chunk-level) patches: patch_generator.go Patch with Level > 0 ----
+     A patch is either a point change (Level 0: EndKey, To) or a range
+     (KeyBelowStart, EndKey] together with the subtree that replaces everything in
+     that range (To = address of a node of the right tree; nil for a removed
+     chunk).  tree_patcher.go applyNodePatch: the keys of the left map in
+     (KeyBelowStart, EndKey] are dropped and the entries of the node are written.
+     KeyBelowStart = nil (first chunk of a level) is None. *)
+End ThreeWay.
+
+Inductive patch :=
+| PPoint (k : N) (to : option N)
+| PRange (lo : option N) (hi : N) (content : dict N).
+
+Definition in_range (lo : option N) (hi k : N) : bool :=
+  (match lo with None => true | Some l => l <? k end) && (k <=? hi).
+
+Definition range_f (lo : option N) (hi : N) (k : N) (c l : option N) : option N :=
+  if in_range lo hi k then c else l.
+Definition apply_range (lo : option N) (hi : N) (content left : dict N) : dict N :=
+  walk (range_f lo hi) content left.
+
+Definition apply_patch (p : patch) (d : dict N) : dict N :=
+  match p with
+  | PPoint k to => walk (fun _ (p : option (option N)) (l : option N) => match p with Some to => to | None => l end) [(k, to)] d
+  | PRange lo hi c => apply_range lo hi c d
+  end.
+
+(* ApplyPatches consumes the ordered stream in one pass; its meaning is the
+   patches applied one after the other *)
+Definition apply_stream (ps : list patch) (d : dict N) : dict N := fold_left (fun d p => apply_patch p d) ps d.
+
+Definition covers (p : patch) (k : N) : bool :=
+  match p with PPoint k0 _ => k =? k0 | PRange lo hi _ => in_range lo hi k end.
+Definition covered (ps : list patch) (k : N) : bool := existsb (fun p => covers p k) ps.
+
+Section ThreeWayStats.
+  Variable collide : collide_t.
+
   (* merge statistics of the row-level path (merge_prolly_rows.go: s.Adds / Modifications / Deletes / DataConflicts) *)
   Definition count_ops (p : N -> bool) (ops : dict twd) : N :=
     N.of_nat (length (filter (fun e => p (fst (fst (snd e)))) ops)).
-End ThreeWay.
+End ThreeWayStats.
